@@ -267,11 +267,11 @@ func NewWorld(r *Rng, o WorldOpts) *GenWorld {
 			}
 		}
 		if o.AllowStd && r.Chance(o.StdPct) {
-			switch r.Intn(4) {
+			switch r.Intn(5) {
 			case 0:
 				imps = append(imps, ModuleRef{Alias: "", Name: "os", Path: "os", Funcs: StdOs})
 				stdOf[i] = append(stdOf[i], "os")
-			case 1:
+			case 1, 4:
 				imps = append(imps, ModuleRef{Alias: "str", Name: "str", Path: "strings", Funcs: StdStrings})
 				stdOf[i] = append(stdOf[i], "strings")
 			default:
@@ -366,7 +366,7 @@ func NewWorld(r *Rng, o WorldOpts) *GenWorld {
 	// is a dependency of the importing file, not a decoy.
 	for i := range names {
 		for _, lib := range stdOf[i] {
-			if r.Chance(30) {
+			if r.Chance(45) {
 				d := path.Dir(names[i])
 				ext := r.Pick([]string{".tsh", ".tsh", "", ".TSH"})
 				n := lib + ext
